@@ -24,6 +24,10 @@ Section Run.
   Hypothesis sort_var_sorted : forall l, StronglySorted (fun a b => fst a <= fst b) (sort var_lt l).
   Notation state := (@state TS).
 
+  Lemma pstep_lvl : forall (s s2 : state) p, pstep s s2 -> In p (trail s) -> lvl s p = decision_level s -> lvl s2 p = decision_level s2.
+  Proof.
+    intros s s2 p (_ & B2 & _ & _ & _ & _ & _ & _ & _ & B10) Hp Hl. unfold lvl, decision_level in *. rewrite (B10 p Hp), B2. exact Hl.
+  Qed.
   Lemma root_decisions : forall (s : state), Inv0 T s -> root_level s = true -> trail_lim s = [] /\ decisions s = [].
   Proof.
     intros s I H. unfold root_level in H. destruct (trail_lim s) eqn:E; try discriminate. split; auto.
@@ -152,7 +156,7 @@ Section Run.
      lemmas and conflicts are T-valid, range over existing variables, mention - apart from the propagated first
      literal of a lemma - only literals that are currently false, a conflict involves the current decision level,
      one-literal lemmas are only recorded at root level, no lemma is empty, and check() records no lemma. *)
-  Hypothesis th_propagate_ok : forall (s : state) p, Inv T s -> In p (trail s) ->
+  Hypothesis th_propagate_ok : forall (s : state) p, Inv T s -> In p (trail s) -> lvl s p = decision_level s ->
     th_result_ok s (th_propagate (thst s) (assigns s) (decision_level s) p).
   Hypothesis th_check_ok : forall (s : state), Inv T s ->
     th_result_ok s (th_check (thst s) (assigns s) (decision_level s)) /\
@@ -383,7 +387,7 @@ Section Run.
              eapply (PF_after_conflict s s3 _ s' r (lits_of s3 c) (proj1 I3)); eauto;
                try (unfold s3; simpl; now rewrite ?B3, ?B5).
         * (* theory propagation of p *)
-          pose proof (th_propagate_ok s2 p I2 Hp2) as Hok.
+          pose proof (th_propagate_ok s2 p I2 Hp2 Hpl2) as Hok.
           destruct (apply_theory sort s2 (th_propagate (thst s2) (assigns s2) (decision_level s2) p)) as [s3 cf] eqn:Ea.
           destruct (apply_theory_inv s2 _ s3 cf I2 Hok Ea) as (I3 & T3 & Hcf & _).
           destruct T3 as (A1 & A2 & A3 & A4 & A5 & A6).
